@@ -596,6 +596,25 @@ var pypiMarkers = []string{
 	`python_full_version >= "3.6.1"`,
 	`implementation_name == "cpython"`,
 	`platform_machine in "x86_64 amd64"`,
+	// ordering operators on strings, not in, reversed operands, ~= and ===
+	// on versions, single quotes, nesting, invalid forms
+	`platform_machine not in "arm64 aarch64"`,
+	`os_name >= "nt"`,
+	`sys_platform < "linux2"`,
+	`sys_platform <= 'linux'`,
+	`platform_system > "Darwin"`,
+	`"win" in sys_platform`,
+	`"3.6" <= python_version`,
+	`python_version ~= "3.6"`,
+	`python_version === "3.8"`,
+	`python_version != "3.5" and python_full_version < "4"`,
+	`python_version not in "2.6 2.7 3.0"`,
+	`(os_name == "posix" and (sys_platform == "linux" or sys_platform == "darwin")) or extra == "doc"`,
+	`implementation_version >= "3.6.0"`,
+	`platform_python_implementation == "CPython" and platform_release != ""`,
+	`extra != "test"`,             // rejected: extra only with ==
+	`os_name ~= "posix"`,          // rejected: ~= must compare versions
+	`python_version >= "3.6" and`, // rejected: truncated
 }
 
 // PyPI draws a PyPI universe.
